@@ -15,8 +15,22 @@ impl VRFKeyStorage for OtherKeyVRF {
     }
 }
 
-/// `verify_label` re-assembled from the same public primitives (`verify/base.rs:144-167`)
+/// the real `verify_label` (`verify/base.rs`, module-private; exposed by the `akd_verif` hook), and next to it
+/// the same decision re-assembled from the public primitives: the two must agree
 async fn verify_label<TC: Configuration>(pk: &[u8], u: &AkdLabel, f: VersionFreshness, v: u64, proof: &[u8], nl: NodeLabel) -> bool {
+    let real = akd_core::verify::base::verif_verify_label::<TC>(pk, u, f, v, proof, nl).is_ok();
+    let re = reassembled::<TC>(pk, u, f, v, proof, nl).await;
+    if real != re {
+        MISMATCH.with(|m| *m.borrow_mut() = Some(format!("verify_label says {real} where the public primitives say {re} (claimed node label length {})", nl.label_len)));
+    }
+    real
+}
+
+thread_local! {
+    static MISMATCH: std::cell::RefCell<Option<String>> = const { std::cell::RefCell::new(None) };
+}
+
+async fn reassembled<TC: Configuration>(pk: &[u8], u: &AkdLabel, f: VersionFreshness, v: u64, proof: &[u8], nl: NodeLabel) -> bool {
     let Ok(pk) = VRFPublicKey::try_from(pk) else { return false };
     let hashed = TC::get_hash_from_label_input(u, f, v);
     let Ok(p) = Proof::try_from(proof) else { return false };
@@ -35,6 +49,7 @@ fn other(f: VersionFreshness) -> VersionFreshness {
 
 pub async fn check<TC: Configuration>(u: &AkdLabel, f: VersionFreshness, v: u64) -> Result<usize, (String, String)> {
     let vrf = HardCodedAkdVRF {};
+    MISMATCH.with(|m| *m.borrow_mut() = None);
     let err = |t: &str, w: String| Err((t.to_string(), w));
     let pk = vrf.get_vrf_public_key().await.unwrap();
     let l1 = vrf.get_node_label::<TC>(u, f, v).await.unwrap();
@@ -77,6 +92,18 @@ pub async fn check<TC: Configuration>(u: &AkdLabel, f: VersionFreshness, v: u64)
         ("node-label-bit0", verify_label::<TC>(pk.as_bytes(), u, f, v, &pb, l_alt0).await),
         ("key", verify_label::<TC>(pk2.as_bytes(), u, f, v, &pb, l1).await),
     ];
+    // the claimed node label altered in its LENGTH only (the length is part of a node label's identity)
+    let mut cases = cases;
+    for (name, len) in [("node-label-len255", 255u32), ("node-label-len0", 0), ("node-label-len1", 1), ("node-label-len248", 248), ("node-label-len257", 257)] {
+        let mut l = l1;
+        l.label_len = len;
+        cases.push((name, verify_label::<TC>(pk.as_bytes(), u, f, v, &pb, l).await));
+    }
+    {
+        // ... and cut to a proper prefix of itself
+        let l = l1.get_prefix(200);
+        cases.push(("node-label-prefix200", verify_label::<TC>(pk.as_bytes(), u, f, v, &pb, l).await));
+    }
     for (what, accepted) in cases {
         n += 1;
         if accepted {
@@ -109,6 +136,9 @@ pub async fn check<TC: Configuration>(u: &AkdLabel, f: VersionFreshness, v: u64)
         if verify_label::<TC>(pk.as_bytes(), u, f, v, &b, l1).await {
             return err("vrf-wrong-length-accepted", format!("a {cut}-byte proof is accepted"));
         }
+    }
+    if let Some(m) = MISMATCH.with(|m| m.borrow_mut().take()) {
+        return err("vrf-verify-label-differs", m);
     }
     // key separation: node label, nonce and commitment differ under another key
     let lo = OtherKeyVRF {}.get_node_label::<TC>(u, f, v).await.unwrap();
